@@ -116,14 +116,17 @@ theorem impl_table :
 /-! ### registration and enabling -/
 
 /-- registering changes a function's bytecode only by appended NOPs (same base bytes, same label, same lines) -/
-theorem register_inert (dupes : List (Core.Blk × Nat)) (taken : List Core.Blk) (code : Prof.Code) :
-    (Prof.padStep dupes taken code).1.blk.base = code.blk.base ∧ (Prof.padStep dupes taken code).1.label = code.label ∧
-    (Prof.padStep dupes taken code).1.lines = code.lines ∧ code.blk.pad ≤ (Prof.padStep dupes taken code).1.blk.pad := by
+theorem register_inert (dupes : List (Core.Blk × Nat)) (codes : List Prof.Code) (code : Prof.Code) :
+    (Prof.padStep dupes codes code).1.blk.base = code.blk.base ∧ (Prof.padStep dupes codes code).1.label = code.label ∧
+    (Prof.padStep dupes codes code).1.lines = code.lines ∧ code.blk.pad ≤ (Prof.padStep dupes codes code).1.blk.pad := by
   unfold Prof.padStep
   split
   · refine ⟨rfl, rfl, rfl, ?_⟩
     exact Nat.le_trans (Nat.le_add_right _ _) (Prof.findFree_ge _ _ _ _)
-  · simp
+  · split
+    · refine ⟨rfl, rfl, rfl, ?_⟩
+      exact Nat.le_trans (Nat.le_add_right _ _) (Prof.findFree_ge _ _ _ _)
+    · simp
 
 /-- enabling never raises, in any state (tool id free, held by this profiler, or — outside this model — by another) -/
 theorem enable_never_raises (s : Prof.St) (t : Nat) : ∃ s', s.enableByCount t = .ok s' := by
